@@ -9,6 +9,9 @@ func init() {
 		ID:   "C12",
 		Rule: "action trees (depth <= 3, fan-out <= 3, sibling order values distinct incl. negatives) whose nodes carry any subset of {set, template, log, ext trace, abort} listed in random order, with conditions absent / constant true / constant false / {{ eq .flag \"yes\" }} on data no action writes / not-a-boolean; always rendered to YAML and decoded by the toolkit. Observables: the whole listener event sequence (OnBefore/OnAfter(err?)/OnLog + trace markers, labelled by action), returned error, final data vs the Coq interpreter; Go side: events well nested with matching labels, nothing but failing OnAfter events after the first failure, no panic. Non-trivial: tree has >= 2 siblings somewhere and a false/invalid condition or an abort. Distinct by Gallina term. Every tree is executed a second time by another executor with its own listener and extension actions: same events, same outcome, same data. Conditions rendering a data key whose text is padded with blanks; set operations with an empty payload; several sets below one path.",
 		Gen: func(r *rand.Rand, tier string, idx int) Case {
+			if idx%200 == 7 {
+				return c12ExecutorReuse(r, idx)
+			}
 			a := genC12Act(r, 0, 1+r.Intn(3), 3, "r", 0)
 			data := map[string]any{"flag": []string{"yes", "no"}[r.Intn(2)]}
 			for k, v := range c12Pads {
